@@ -414,6 +414,8 @@ def _check_stale_and_memo(prog: Program, res: Result):
             if acc and (cn, y) == ("BaseGHE", "self.bhe_eq"):
                 # the reason given is itself checked: each method that replaces the tube hands it to the short-time model afterwards
                 for cls_, m, st_, x, how, dstmt in items:
+                    if not isinstance(st_, (ast.Assign, ast.AugAssign)):
+                        continue  # replaced through a call of another method of the object: that method is checked itself
                     told = any(isinstance(k, ast.Call) and attr_chain(k.func) == "self.radial_numerical.calc_sts_g_functions" and k.args and attr_chain(k.args[0]) == "self.bhe_eq" and k.lineno > st_.lineno
                                for k in ast.walk(m.node))
                     if not told:
